@@ -606,6 +606,7 @@ func (t *tXn) truncate(methods []string) {
 			nr[i].wildcardChildIndex = -1
 		}
 		t.root = nr
+		t.size = 0
 		return
 	}
 
@@ -618,6 +619,7 @@ func (t *tXn) truncate(methods []string) {
 		if idx < 0 {
 			continue
 		}
+		t.size -= countRoutes(nr[idx])
 		if !isRemovable(method) {
 			nr[idx] = new(node)
 			nr[idx].key = commonVerbs[idx]
@@ -632,6 +634,16 @@ func (t *tXn) truncate(methods []string) {
 	clear(nr[len(nr):oldlen]) // zero/nil out the obsolete elements, for GC
 
 	t.root = nr
+}
+
+// countRoutes returns the number of routes registered under n.
+func countRoutes(n *node) int {
+	count := 0
+	it := newRawIterator(n)
+	for it.hasNext() {
+		count++
+	}
+	return count
 }
 
 // updateMaxParams perform an update only if max is greater than the current
